@@ -28,7 +28,7 @@ RULE = (
     "frame attempting a write, or a value transfer with a symbolic amount; distinct by (tree, input)."
 )
 ASSUMPTIONS = c01.ASSUMPTIONS + ["call trees are acyclic (no unbounded recursion); depth <= 4, well below the 1024 limit / 63-64 rule"]
-WATCHDOG_S = {"quick": 1500, "thorough": 7200}
+WATCHDOG_S = {"quick": 2400, "thorough": 10800}
 
 MANIFEST = {
     "technique": "differential testing of nested message-call/creation histories: generated call trees with per-frame effects and failure modes run through SEVM.run vs the journaled reference EVM; context values are returned up the tree so that every frame's view is compared",
